@@ -3,6 +3,7 @@
 Confirms a seeded change (compiles, stable suite passes, demo fails with it and passes without) on scratch
 copies of /repo under /tmp and runs the check(s) against the changed copy via VERIF_REPO."""
 import os, sys, subprocess, shutil, re, json, hashlib, time
+ROOT = os.path.dirname(os.path.dirname(os.path.abspath(__file__)))
 ENV = dict(os.environ, GOFLAGS="-mod=mod", GOPROXY="off", GOSUMDB="off", GOTOOLCHAIN="local")
 STABLE = "go test -vet=off -count=1 ./combination ./pot ./regulator ./settlement ./testcases"
 def run(cmd, cwd=None, env=None, timeout=3600):
@@ -25,7 +26,7 @@ def main():
     if not os.path.exists(demo):
         cands = [f for f in os.listdir(src) if f.startswith(f"demo{x}")]
         demo = os.path.join(src, cands[0]) if cands else None
-    base = f"/tmp/seedchk/{pid}{x}"
+    base = f"/tmp/seedchk{abs(hash(ROOT))%9973}/{pid}{x}{os.path.basename(src)}"
     res = {"id": pid, "change": x}
     shutil.rmtree(base, ignore_errors=True)
     os.makedirs(base)
@@ -56,13 +57,13 @@ def main():
     for prop in props:
         env = dict(ENV, VERIF_REPO=dw, VERIF_EVIDENCE_DIR=os.path.join(base, "evidence"), VERIF_REPLAY_DIR=os.path.join(base, "replays"))
         t0 = time.time()
-        rc, out = run(f"./check {prop} {tier}", cwd="/verif", env=env)
+        rc, out = run(f"./check {prop} {tier}", cwd=ROOT, env=env)
         res["checks"][prop] = {"tier": tier, "rc": rc, "caught": rc == 1 and f"VIOLATION property={prop}" in out,
                                "signatures": re.findall(r"signature=(\S+)", out)[:4], "secs": round(time.time()-t0)}
         if rc not in (0, 1): res["checks"][prop]["tail"] = out[-400:]
     tag = hashlib.md5(dw.encode()).hexdigest()[:10]
     for f in (f"bin/vp-{tag}", f"bin/vp-race-{tag}", f"harness/alt-{tag}.mod", f"harness/alt-{tag}.sum"):
-        try: os.remove(os.path.join("/verif", f))
+        try: os.remove(os.path.join(ROOT, f))
         except FileNotFoundError: pass
     shutil.rmtree(base, ignore_errors=True)
     print(json.dumps(res, indent=1))
